@@ -427,6 +427,70 @@ def noise(rng, quick):
     return out
 
 
+def rc_noise(rng, n=None):
+    """A range-coder payload: the mandatory 0x00 first byte followed by noise (decodes to arbitrary symbol sequences)."""
+    n = rng.choice((4, 5, 8, 20, 21, 22, 40, 100, 300, 1200)) if n is None else n
+    r = rng.random()
+    if r < 0.6:
+        body = bytes(rng.getrandbits(8) for _ in range(n))
+    elif r < 0.8:
+        body = bytes([rng.choice(EDGE)]) * n
+    else:
+        body = bytes(rng.choice(EDGE) for _ in range(n))
+    return b"\x00" + body
+
+
+def lzma2_chunks(rng):
+    """A sequence of LZMA2 chunks with arbitrary (often inconsistent) control bytes, sizes and properties."""
+    out = bytearray()
+    for k in range(rng.randrange(1, 6)):
+        r = rng.random()
+        if r < 0.25:      # uncompressed chunk
+            data = bytes(rng.getrandbits(8) for _ in range(rng.choice((1, 2, 100, 5000))))
+            ctrl = rng.choice((1, 2, 1, 2, 3, 0x7F))
+            declared = len(data) - 1 if rng.random() < 0.8 else rng.randrange(65536)
+            out += bytes([ctrl]) + struct.pack(">H", declared & 0xFFFF) + data
+        elif r < 0.9:     # LZMA chunk
+            payload = rc_noise(rng)
+            ctrl = rng.choice((0x80, 0xA0, 0xC0, 0xE0, 0xE0, 0xE0, 0xFF, 0x9F))
+            unc = rng.choice((0, 1, 100, 4095, 65535, 1 << 16, (1 << 21) - 1))
+            ctrl |= (unc >> 16) & 0x1F
+            comp = len(payload) - 1 if rng.random() < 0.7 else rng.randrange(65536)
+            out += bytes([ctrl & 0xFF]) + struct.pack(">H", unc & 0xFFFF) + struct.pack(">H", comp & 0xFFFF)
+            if ctrl & 0x40 or rng.random() < 0.1:
+                out += bytes([rng.choice((0x5D, 0, 224, 225, 255, 44, 100, rng.randrange(256)))])
+            out += payload
+        else:
+            out += bytes([rng.choice((0, 0, 3, 0x7F))])
+    if rng.random() < 0.6:
+        out += b"\x00"
+    return bytes(out)
+
+
+def decoder_noise(rng, quick):
+    """(format tag, bytes): valid containers around noise payloads, so that the LZMA/LZMA2 decoders themselves (symbol
+    decoding, dictionary copies, chunk state machine) run on arbitrary data."""
+    out = []
+    for _ in range(250 if quick else 2500):
+        lc, lp = rng.choice(((3, 0), (0, 0), (4, 0), (0, 4), (2, 2), (1, 3), (0, 2)))
+        pb = rng.randrange(5)
+        unc = rng.choice((U64, U64, 0, 1, 50, 1000, 70000))
+        out.append(("lzma", lzma_alone_header(lc, lp, pb, rng.choice((0, 4096, 65536, 1 << 20)), unc) + rc_noise(rng)))
+    for _ in range(150 if quick else 1500):
+        pay = rc_noise(rng)
+        out.append(("lz", lzip_member(pay, rng.getrandbits(32), rng.choice((0, 1, 100, 5000)), dict_byte=rng.choice((12, 16, 20)))))
+    for _ in range(250 if quick else 2500):
+        out.append(("raw:%d" % rng.choice((3, 4, 5, 6, 7, 22, 23)), rc_noise(rng)))
+    for _ in range(350 if quick else 3500):
+        ch = lzma2_chunks(rng)
+        out.append(("raw:%d" % rng.choice((0, 1, 2, 10, 12, 19, 20, 21)), ch))
+        if rng.random() < 0.4:
+            hdr = block_header([(LZMA2_ID, bytes([rng.choice((0, 8, 18))]), None)])
+            chk = rng.choice((0, 1, 4, 10))
+            out.append(("xz", xz_stream([(hdr, ch, b"")], check=chk)))
+    return out
+
+
 FILTER_STRINGS = [
     "6", "0", "9e", "3e", "lzma2", "lzma2:dict=1MiB", "lzma2:preset=6e,dict=64KiB,lc=4,lp=0,pb=0,mode=fast,nice=273,mf=bt4,depth=200",
     "delta:dist=4 lzma2", "x86 lzma2", "x86:start=4096--lzma2:dict=4KiB", "arm64 riscv lzma2", "delta--delta--delta--lzma2",
